@@ -486,10 +486,15 @@ def rebuild_plan(cfg, args, j, variant):
 # --------------------------------------------------------------------------- evidence
 COMPONENTS = {
     "real": ["panoptica.Panoptica_Aggregator", "panoptica.Panoptica_Evaluator and the whole metric pipeline", "panoptica.Panoptica_Statistic",
-             "csv, io.TextIOWrapper, io.BufferedWriter/Reader (real buffering over real files on tmpfs)", "pickle round trips at the process boundary"],
-    "stub": ["multiprocessing.Lock -> SimLock", "multiprocessing.Pool -> SimPool (process creation and pipes stubbed, tasks run real code)",
-             "open/os.remove/Path.exists/Path.mkdir -> scheduling+crash points around the real calls", "atexit -> per-group handler list",
-             "time.perf_counter/time.time -> SimClock", "fork of workers -> pickled copy of the aggregator per task", "SIGKILL -> tasks never scheduled again"],
+             "csv, io.TextIOWrapper, io.BufferedWriter/Reader (real buffering over real files on tmpfs)", "pickle round trips at the process boundary",
+             "worker processes of the 'procs' and 'forked' process models: real fork()ed operating-system processes (copy-on-fork interpreter images)",
+             "restarts: every phase runs in a fresh process image; half of the later phases in an image of a second interpreter started under another PYTHONHASHSEED"],
+    "stub": ["multiprocessing.Lock / threading.Lock (created by the package) -> SimLock / SimThreadLock, state held by the scheduler",
+             "multiprocessing.Pool -> SimPool (process creation and pipes stubbed, tasks run real code through a real pickle boundary; a pool inherited through fork hangs)",
+             "open / os.open / os.write / os.remove / os.rename / os.replace / Path.* -> scheduling+crash points around the real calls", "atexit -> per-group handler list",
+             "time.perf_counter / time.time / file modification times -> SimClock", "locale conventions, os.cpu_count, working directory -> per-run knobs",
+             "SIGKILL -> tasks (and the proxies of worker processes) never scheduled again; worker processes die with the phase image",
+             "scheduling of worker processes: each blocks on a pipe until its proxy task in the central scheduler lets it proceed"],
 }
 
 
